@@ -20,16 +20,16 @@ PROP = {
         {"name": "search_enum", "mode": "enum"},
         {"name": "shell_enum", "mode": "enum"},
         {"name": "path_enum", "mode": "enum"},
-        {"name": "split", "quick": 400000, "thorough": 8000000, "maxlen": 160},
-        {"name": "join", "quick": 200000, "thorough": 3000000, "maxlen": 96},
-        {"name": "trim", "quick": 200000, "thorough": 3000000, "maxlen": 128},
-        {"name": "replace", "quick": 300000, "thorough": 6000000, "maxlen": 128},
-        {"name": "memmem", "quick": 300000, "thorough": 6000000, "maxlen": 128},
-        {"name": "cmdargs", "quick": 300000, "thorough": 6000000, "maxlen": 128},
-        {"name": "argvc", "quick": 400000, "thorough": 8000000, "maxlen": 160},
-        {"name": "shell", "quick": 400000, "thorough": 8000000, "maxlen": 128},
-        {"name": "creader", "quick": 200000, "thorough": 3000000, "maxlen": 160},
-        {"name": "path", "quick": 400000, "thorough": 8000000, "maxlen": 96},
+        {"name": "split", "quick": 1200000, "thorough": 12000000, "maxlen": 160},
+        {"name": "join", "quick": 400000, "thorough": 4000000, "maxlen": 96},
+        {"name": "trim", "quick": 500000, "thorough": 5000000, "maxlen": 128},
+        {"name": "replace", "quick": 1000000, "thorough": 10000000, "maxlen": 128},
+        {"name": "memmem", "quick": 800000, "thorough": 8000000, "maxlen": 128},
+        {"name": "cmdargs", "quick": 1000000, "thorough": 10000000, "maxlen": 128},
+        {"name": "argvc", "quick": 1200000, "thorough": 12000000, "maxlen": 160},
+        {"name": "shell", "quick": 1200000, "thorough": 12000000, "maxlen": 128},
+        {"name": "creader", "quick": 600000, "thorough": 6000000, "maxlen": 160},
+        {"name": "path", "quick": 1200000, "thorough": 12000000, "maxlen": 96},
     ],
     "fuzz": [
         {"name": "cmdargs", "secs": 40, "maxlen": 128},
